@@ -114,6 +114,41 @@ CLAIMS["C07"] = {
             "(strings longer than the Kani bounds, nested lists) are covered structurally (loop-cut claims), not by runs.",
 }
 
+CLAIMS["C04"] = {
+    "engine": "E2-mirsym",
+    "design_ref": "DESIGN.md §1 C04",
+    "technique": "symbolic execution of the value serializer's / deserializer's scalar leaves (z3 bit-vectors and IEEE floats)",
+    "text": "Scalar leaves only: for every value of i8..u64, f32, f64, bool, char the solver decides that serialize_* "
+            "yields the Value of the same mathematical value / bits, and that every numeric deserialize_* hands exactly "
+            "the stored payload to the visitor method matching its representation; with Serde's primitive visitors this "
+            "is the scalar round trip at every width and boundary.",
+    "note": "Narrow by design: every structural category (sequences, maps, structs, enums, options of options) and the "
+            "text path are NOT decided - the collectors build Value trees through Value::list/append, which is outside "
+            "both engines (measured). The C14 dispatch tables cover the deserializer side of structure.",
+}
+CLAIMS["C14"] = {
+    "engine": "E2-mirsym",
+    "design_ref": "DESIGN.md §1 C14",
+    "technique": "symbolic execution of every deserialize_* method and the Seq/Map access steps with the input Value's "
+                 "kind symbolic (z3), compared with the documented acceptance table",
+    "text": "For 26 deserializer methods x 11 value kinds x 3 number representations the solver decides which visitor "
+            "method is called (vector or list for sequences and tuples, empty list or alist for maps/structs, symbol or "
+            "pair for enums, empty/one-element list for options) and that every other kind is rejected with a data "
+            "error; list/map access rejects improper tails and non-pair entries; scalar serializer leaves as C04.",
+    "note": "Shapes PRODUCED by the Serialize*::end collectors (proper lists, vectors, alists, (name . payload)) are not "
+            "decided (Value-tree construction is outside the engines); only the acceptance side and scalar shapes are.",
+}
+CLAIMS["C18"] = {
+    "engine": "E2-mirsym",
+    "design_ref": "DESIGN.md §1 C18",
+    "technique": "reachability of every panic site in serde-lexpr's value deserializer under an arbitrary input Value (z3)",
+    "text": "No panic is reachable in any deserialize_* method or access step for any input value, except the documented "
+            "expect in next_value_seed, reachable only when the visitor asks for a value after the end of the map; "
+            "all rejections are message errors, classified as Category::Data.",
+    "note": "The re-serialisation self-consistency clause (deserialize . serialize . deserialize) is outside: it needs "
+            "whole Value trees. Visitors are abstract (arbitrary result), so totality of user visitors is not claimed.",
+}
+
 NOT_APPLICABLE = {
     "C09": "each point of the quantifier is a Rust program that must be compiled; the macro consumes proc_macro2 "
            "token trees produced by rustc's lexer; Kani ICEs compiling proc_macro2 and the code is String/Vec/"
